@@ -41,6 +41,12 @@ type RunCfg struct {
 	ErrBudget   int
 	Script      int // index of the TLC run this configuration comes from, -1 otherwise
 	Salt        int64
+	// cases of ScannerFanout.tla: the log's content is the specification's (record WORLD), the reply to a request
+	// starting at s has ReplyAt[s] entries; Pol / PolK name the reply policy the lengths come from
+	SpecWorld bool          `json:",omitempty"`
+	ReplyAt   map[int64]int `json:",omitempty"`
+	Pol       string        `json:",omitempty"`
+	PolK      int           `json:",omitempty"`
 }
 
 // Pub is one growth step of the log.
@@ -67,6 +73,11 @@ type evenSecond struct{}
 func leafTS(leafInput []byte) uint64 { return binary.BigEndian.Uint64(leafInput[2:10]) }
 
 func (evenSecond) Matches(l *ct.LeafEntry) bool { return (leafTS(l.LeafInput)/1000)%2 == 0 }
+
+// everyLeaf is the LeafMatcher that selects every entry (fatally broken ones included).
+type everyLeaf struct{}
+
+func (everyLeaf) Matches(*ct.LeafEntry) bool { return true }
 
 // oddSecond is its complement (so that every entry is wanted by one of the two leaf matchers).
 type oddSecond struct{}
@@ -98,13 +109,15 @@ func wants(rc *RunCfg, e *Entry) bool {
 		return (e.TS/1000)%2 == 0
 	case "leafodd":
 		return (e.TS/1000)%2 == 1
+	case "leafall":
+		return true
 	}
 	panic("matcher " + rc.Matcher)
 }
 
 // mtype: a Matcher-type matcher is shown the parsed (pre-)certificate, a LeafMatcher the raw leaf.
 func mtype(rc *RunCfg) string {
-	if rc.Matcher == "leaf" || rc.Matcher == "leafodd" {
+	if rc.Matcher == "leaf" || rc.Matcher == "leafodd" || rc.Matcher == "leafall" {
 		return "leaf"
 	}
 	return "matcher"
@@ -129,13 +142,15 @@ func matcherOf(rc *RunCfg) interface{} {
 		return evenSecond{}
 	case "leafodd":
 		return oddSecond{}
+	case "leafall":
+		return everyLeaf{}
 	}
 	panic("matcher " + rc.Matcher)
 }
 
 func newFake(w *World, rc *RunCfg, salt int64) *Fake {
 	rc.Salt = salt
-	return &Fake{w: w, size: rc.Init, rng: vh.Rand(salt), lat: vh.Rand(salt + 7), errBudget: rc.ErrBudget,
+	return &Fake{w: w, size: rc.Init, replyAt: rc.ReplyAt, rng: vh.Rand(salt), lat: vh.Rand(salt + 7), errBudget: rc.ErrBudget,
 		errKinds: []string{"429", "5xx", "net", "unavail", "deadline", "canceled"}, got: map[int64][]ct.LeafEntry{}, certs: map[int64][]string{},
 		reqCap: 40*(MaxN+1) + 10*rc.ErrBudget, final: rc.Final}
 }
@@ -155,7 +170,7 @@ func execute(t *testing.T, w *World, rc *RunCfg, fk *Fake, rep *vh.Report) (out 
 	ctx, cancel := context.WithCancel(context.Background())
 	defer cancel()
 	fk.cancel = cancel
-	kinds, classes, wts := make([]string, MaxN), make([]string, MaxN), make([]int, MaxN)
+	kinds, classes, wts := make([]string, len(w.Entries)), make([]string, len(w.Entries)), make([]int, len(w.Entries))
 	for i := range w.Entries {
 		kinds[i] = "x"
 		if w.Entries[i].Precert {
@@ -370,7 +385,11 @@ func replayOf(rc *RunCfg, f *Fake) any {
 	if len(evs) > 400 {
 		evs = evs[:400]
 	}
-	return map[string]any{"config": rc, "run": f.run, "trace": evs}
+	r := map[string]any{"config": rc, "run": f.run, "trace": evs}
+	if f.ws != nil {
+		r["world"] = f.ws
+	}
+	return r
 }
 
 // checkExact: the fetch callback got every index of [lo, hi) exactly once and nothing else, with the bytes served.
@@ -616,7 +635,7 @@ func TestReplay(t *testing.T) {
 				continue
 			}
 			rc := &RunCfg{Start: run.Cfg.Start, End: run.Cfg.End, Batch: run.Cfg.Batch, NW: run.Cfg.NW, Cont: run.Cfg.Cont, Init: run.Cfg.Init,
-				Mode: mode, Matcher: []string{"all", "regex", "leaf", "leafodd", "all", "none"}[idx/3%6], PrecertOnly: idx%5 == 0, NMatch: 1 + idx%3, Buf: idx % 4,
+				Mode: mode, Matcher: []string{"all", "regex", "leaf", "leafodd", "all", "none"}[idx/3%6], PrecertOnly: idx%5 == 0, NMatch: 1 + idx/3%5, Buf: idx % 4,
 				Final: run.Final, EndWith: "stop", Script: idx}
 			fk := newFake(w, rc, int64(idx))
 			fk.script(&run)
@@ -650,15 +669,15 @@ func TestReplay(t *testing.T) {
 
 func randomCfg(rng *rand.Rand, tr int) *RunCfg {
 	rc := &RunCfg{Script: -1, Mode: "fetch", Matcher: "all", NMatch: 1}
-	rc.Init = int64(rng.Intn(MaxN - 3))
+	rc.Init = int64(rng.Intn(TraceN - 3))
 	if rng.Intn(2) == 0 {
-		rc.Init = int64(6 + rng.Intn(MaxN-5))
+		rc.Init = int64(6 + rng.Intn(TraceN-5))
 	}
 	rc.Batch = []int{1, 1, 2, 2, 3, 3, 4, 5}[rng.Intn(8)]
 	rc.NW = 1 + rng.Intn(4)
 	rc.Cont = rng.Intn(3) == 0
 	if rng.Intn(2) == 0 {
-		rc.End = int64(rng.Intn(MaxN + 1))
+		rc.End = int64(rng.Intn(TraceN + 1))
 	}
 	eff := rc.Init
 	if rc.End != 0 && rc.End < eff {
@@ -669,14 +688,14 @@ func randomCfg(rng *rand.Rand, tr int) *RunCfg {
 		rc.Start = int64(rng.Intn(int(min(eff, 3)) + 1))
 	}
 	if !rc.Cont && rng.Intn(8) == 0 {
-		rc.Start = int64(rng.Intn(MaxN + 1)) // possibly beyond the end: nothing to fetch
+		rc.Start = int64(rng.Intn(TraceN + 1)) // possibly beyond the end: nothing to fetch
 	}
 	rc.ErrBudget = []int{0, 0, 1, 2, 4, 6}[rng.Intn(6)]
 	rc.Final = rc.Init
 	// growth: in continuous mode it matters, otherwise it only must not confuse the fetcher
 	if rc.Cont || rng.Intn(4) == 0 {
-		for k := rng.Intn(4); k > 0 && rc.Final < MaxN; k-- {
-			rc.Final += 1 + int64(rng.Intn(int(MaxN-rc.Final)))
+		for k := rng.Intn(4); k > 0 && rc.Final < TraceN; k-- {
+			rc.Final += 1 + int64(rng.Intn(int(TraceN-rc.Final)))
 			rc.Publishes = append(rc.Publishes, Pub{AfterMs: rng.Intn(90000), Size: rc.Final})
 		}
 	}
@@ -686,6 +705,10 @@ func randomCfg(rng *rand.Rand, tr int) *RunCfg {
 		rc.PrecertOnly = rng.Intn(4) == 0
 		rc.NMatch = 1 + rng.Intn(3)
 		rc.Buf = rng.Intn(4)
+		if rng.Intn(3) == 0 { // more matcher workers, longer batches (ScannerFanout.tla: the split classes)
+			rc.NMatch = 1 + rng.Intn(6)
+			rc.Batch = 1 + rng.Intn(12)
+		}
 	}
 	switch rng.Intn(5) {
 	case 0:
@@ -752,6 +775,7 @@ func TestTrace(t *testing.T) {
 type Case struct {
 	Config RunCfg
 	Run    *Run
+	World  *WorldSpec // the specification's log content (cases of ScannerFanout.tla)
 }
 
 // TestOne re-executes one recorded case: first with its own salt, then with other latencies.
@@ -771,6 +795,14 @@ func TestOne(t *testing.T) {
 		}
 	}()
 	w := NewWorld(vh.Rand(16))
+	if cs[0].Config.SpecWorld {
+		if cs[0].World == nil {
+			t.Fatal("the case runs against the specification's log but carries no WORLD record")
+		}
+		if w, err = NewWorldFrom(cs[0].World); err != nil {
+			t.Fatal(err)
+		}
+	}
 	if err := w.CheckClasses(); err != nil {
 		t.Fatal(err)
 	}
@@ -781,6 +813,7 @@ func TestOne(t *testing.T) {
 	for k := 0; k < 12; k++ {
 		rc := cs[0].Config
 		fk := newFake(w, &rc, rc.Salt+int64(k)*101)
+		fk.ws = cs[0].World
 		if cs[0].Run != nil {
 			fk.script(cs[0].Run)
 		}
@@ -871,7 +904,7 @@ func TestBeyondTree(t *testing.T) {
 			rc.End = int64(1 + rng.Intn(int(rc.Init)))
 			rc.Start = rc.End + 1 + int64(rng.Intn(3))
 		}
-		rc.Final = rc.Start + 1 + int64(rng.Intn(int(MaxN-rc.Start)))
+		rc.Final = rc.Start + 1 + int64(rng.Intn(int(TraceN-rc.Start)))
 		if rc.Final < rc.Init {
 			rc.Final = rc.Init
 		}
@@ -905,5 +938,195 @@ func TestBeyondTree(t *testing.T) {
 			key = fmt.Sprintf("%+v", *rc)
 		}
 		rep.Eval(key)
+	}
+}
+
+// ---------------------------------------------------------------------------------------------
+// ScannerFanout.tla: the (batch length, matcher workers, channel capacity) case space
+
+// FanCase is one case exported by TLC (ScannerFanoutMC.tla, ExportOf).
+type FanCase struct {
+	C struct {
+		Size, Start, End int64
+		Batch, K         int
+		Pol              string
+		NF, NM, Buf      int
+		Matcher          string
+		Ponly            bool
+	}
+	RangeEnd  int64
+	Delivered []struct {
+		S          int64
+		N          int
+		Split, Buf string
+	}
+	Calls []struct {
+		I    int64
+		Kind string
+	}
+	Classes []struct {
+		Split, Buf string
+		M          int
+	}
+}
+
+// the specification's matcher names -> the matchers of the harness
+var fanMatcher = map[string]string{"all": "all", "none": "none", "regex": "regex", "even": "leaf", "odd": "leafodd", "every": "leafall"}
+
+// splitOf: the fan-out class (ScannerFanout.tla, Split) of the delivered batch of the case that holds index i.
+func (fc *FanCase) splitOf(i int64) string {
+	for _, d := range fc.Delivered {
+		if d.S <= i && i < d.S+int64(d.N) {
+			return d.Split
+		}
+	}
+	return "none"
+}
+
+// TestFanout runs every case of ScannerFanout.tla through the real code: the scripted log holds the entries the
+// specification's WORLD record prescribes and answers a request starting at s with the number of entries the case's
+// reply policy gives; Scanner.Scan runs with the case's BatchSize / ParallelFetch / NumWorkers / BufferSize / matcher.
+// The callbacks made must be exactly the case's Calls (index and kind, once each); every fourth case also runs
+// Fetcher.Run, whose callback must get exactly the case's Delivered batches.
+func TestFanout(t *testing.T) {
+	path, wpath := os.Getenv("VERIF_FANOUT_CASES"), os.Getenv("VERIF_FANOUT_WORLD")
+	if path == "" || wpath == "" {
+		t.Skip("VERIF_FANOUT_CASES / VERIF_FANOUT_WORLD not set")
+	}
+	cases, err := vh.LoadNDJSON[FanCase](path)
+	if err != nil {
+		t.Fatal(err)
+	}
+	worlds, err := vh.LoadNDJSON[WorldSpec](wpath)
+	if err != nil || len(worlds) != 1 {
+		t.Fatal("cannot load the WORLD record: ", err)
+	}
+	rep := vh.NewReport("c16-fanout", "cases of ScannerFanout.tla (tree size, start / end, batch size 1..16, reply policy full / cap k / align k / half, "+
+		"1..4 fetchers, 1..6 matcher workers, channel capacity 0..16, six matchers, PrecertOnly; counted transient get-entries errors added) run through the "+
+		"real Scanner.Scan (and Fetcher.Run) in virtual time under -race on the log content the specification prescribes; the callbacks made must be "+
+		"exactly the specification's Calls, the batches exactly its Delivered; non-trivial = distinct set of (matcher workers, split class, buffer class) "+
+		"exercised by a case that owes at least one callback")
+	defer func() {
+		if err := rep.Write(); err != nil {
+			t.Fatal(err)
+		}
+	}()
+	w, err := NewWorldFrom(&worlds[0])
+	if err != nil {
+		t.Fatal(err)
+	}
+	if err := w.CheckClasses(); err != nil {
+		t.Fatal(err)
+	}
+	rec, err := vh.NewRecorder("traces.ndjson")
+	if err != nil {
+		t.Fatal(err)
+	}
+	traceEvery := vh.EnvInt("VERIF_FANOUT_TRACE_EVERY", 5)
+	for idx := range cases {
+		fc := &cases[idx]
+		m, ok := fanMatcher[fc.C.Matcher]
+		if !ok || fc.C.Size > MaxN {
+			t.Fatalf("case %d: matcher %q size %d", idx, fc.C.Matcher, fc.C.Size)
+		}
+		rng := vh.Rand(int64(31000 + idx))
+		for _, mode := range []string{"scan", "fetch"} {
+			if mode == "fetch" && idx%4 != 0 {
+				continue
+			}
+			rc := &RunCfg{Start: fc.C.Start, End: fc.C.End, Batch: fc.C.Batch, NW: fc.C.NF, Init: fc.C.Size, Final: fc.C.Size, Mode: mode,
+				Matcher: m, PrecertOnly: fc.C.Ponly, NMatch: fc.C.NM, Buf: fc.C.Buf, EndWith: "stop", Script: -1,
+				ErrBudget: []int{0, 0, 1, 3}[rng.Intn(4)], SpecWorld: true, ReplyAt: map[int64]int{}, Pol: fc.C.Pol, PolK: fc.C.K}
+			for _, d := range fc.Delivered {
+				rc.ReplyAt[d.S] = d.N
+			}
+			fk := newFake(w, rc, int64(40000+idx))
+			fk.ws = &worlds[0]
+			var out outcome
+			synctest.Test(t, func(t *testing.T) { out = execute(t, w, rc, fk, rep) })
+			monitors(rep, rc, fk, out)
+			if idx%traceEvery == 0 {
+				for _, ev := range fk.ev {
+					rec.Emit(ev)
+				}
+			}
+			compareFanout(rep, rc, fk, fc, out)
+		}
+		key := ""
+		if len(fc.Calls) > 0 {
+			var cl []string
+			for _, c := range fc.Classes {
+				cl = append(cl, fmt.Sprintf("%d/%s/%s", c.M, c.Split, c.Buf))
+				rep.Add("fanout_"+c.Split+"_"+c.Buf, 1)
+			}
+			sort.Strings(cl)
+			key = strings.Join(cl, " ")
+		}
+		rep.Eval(key)
+		if idx < 2 {
+			rep.Sample(map[string]any{"case": fc})
+		}
+	}
+	rep.Replayed = len(cases)
+	if err := rec.Close(); err != nil {
+		t.Fatal(err)
+	}
+	rep.Extra["events"] = rec.N
+}
+
+// compareFanout: the real run against the case of the specification.
+func compareFanout(rep *vh.Report, rc *RunCfg, fk *Fake, fc *FanCase, out outcome) {
+	fk.mu.Lock()
+	defer fk.mu.Unlock()
+	replay := func() any {
+		r := replayOf(rc, fk).(map[string]any)
+		r["case"] = fc
+		return r
+	}
+	if !out.returned {
+		return // (terminates:<mode> was reported)
+	}
+	if out.err != nil {
+		rep.Violate("fanout:error", fmt.Sprintf("the case ends without error in the specification, the real run returned %v", out.err), replay())
+		return
+	}
+	if rc.Mode == "fetch" {
+		var want, got []string
+		for _, d := range fc.Delivered {
+			want = append(want, fmt.Sprintf("[%d+%d]", d.S, d.N))
+		}
+		for _, b := range fk.batches {
+			got = append(got, fmt.Sprintf("[%d+%d]", b[0], b[1]))
+		}
+		sort.Strings(want)
+		sort.Strings(got)
+		if strings.Join(want, "") != strings.Join(got, "") {
+			rep.Violate("fanout:batches:"+rc.Pol, fmt.Sprintf("BatchSize %d, %d fetchers, range [%d,%d), reply policy %s %d: the specification delivers the batches %v, "+
+				"the real fetcher %v", rc.Batch, rc.NW, rc.Start, fc.RangeEnd, rc.Pol, rc.PolK, want, got), replay())
+		}
+		return
+	}
+	owed := map[int64]string{}
+	for _, c := range fc.Calls {
+		owed[c.I] = c.Kind
+	}
+	where := fmt.Sprintf("BatchSize %d, %d fetchers, %d matcher workers, BufferSize %d, matcher %s (precertOnly=%v), range [%d,%d), reply policy %s %d",
+		rc.Batch, rc.NW, rc.NMatch, rc.Buf, rc.Matcher, rc.PrecertOnly, rc.Start, fc.RangeEnd, rc.Pol, rc.PolK)
+	for _, c := range fc.Calls {
+		ks := fk.certs[c.I]
+		switch {
+		case len(ks) == 0:
+			rep.Violate("fanout:callback-missing:"+fc.splitOf(c.I), fmt.Sprintf("%s: the scan owes entry %d a %s callback, none was made (the entry came in a batch of class %q: "+
+				"batches %v)", where, c.I, c.Kind, fc.splitOf(c.I), fc.Delivered), replay())
+		case len(ks) > 1:
+			rep.Violate("fanout:callback-repeated:"+fc.splitOf(c.I), fmt.Sprintf("%s: %d callbacks for entry %d", where, len(ks), c.I), replay())
+		case ks[0] != c.Kind:
+			rep.Violate("fanout:callback-wrong-kind", fmt.Sprintf("%s: entry %d is owed a %s callback, the %s callback was invoked", where, c.I, c.Kind, ks[0]), replay())
+		}
+	}
+	for i, ks := range fk.certs {
+		if _, ok := owed[i]; !ok && len(ks) > 0 {
+			rep.Violate("fanout:callback-unowed", fmt.Sprintf("%s: %d callback(s) for entry %d, which the scan does not owe one", where, len(ks), i), replay())
+		}
 	}
 }
